@@ -399,3 +399,4 @@ include!("c17/registry.rs");
 include!("c17/run.rs");
 include!("c17/bind.rs");
 include!("c17/rows.rs");
+include!("c17/bindrow.rs");
